@@ -30,12 +30,13 @@ const (
 	rScribble
 	rYield
 	rSetBuf
+	rDup
 )
 
 var kindNames = map[reqKind]string{
 	rStart: "start", rTaskEnd: "task-end", rNote: "note", rListenUDP: "listen-udp", rDial: "dial", rDialWait: "dial-wait",
 	rClose: "close", rSetDeadline: "set-deadline", rWrite: "write", rRead: "read", rSleep: "sleep", rLock: "lock",
-	rUnlock: "unlock", rRLock: "rlock", rRUnlock: "runlock", rPoint: "point", rQuiesce: "quiesce", rScribble: "scribble", rYield: "yield", rSetBuf: "set-rcvbuf",
+	rUnlock: "unlock", rRLock: "rlock", rRUnlock: "runlock", rPoint: "point", rQuiesce: "quiesce", rScribble: "scribble", rYield: "yield", rSetBuf: "set-rcvbuf", rDup: "dup",
 }
 
 type req struct {
@@ -157,6 +158,7 @@ type Socket struct {
 	World     any      // free slot for the world model
 	WTask     int      // task and step of the goroutine that wrote to the socket last (tcp)
 	WStep     int
+	dups      []int // File(): our ends of the socket pairs whose other ends the library holds as duplicated descriptors
 }
 
 func (k *Socket) Local() netip.AddrPort  { return k.local }
@@ -261,7 +263,7 @@ func (s *Sim) bind(proto string, want netip.AddrPort, reuse bool) (netip.AddrPor
 			}
 		}
 		for _, k := range s.socks {
-			if k.closed || k.Proto != proto || k.local.Port() != p {
+			if (k.closed && !s.dupHeld(k)) || k.Proto != proto || k.local.Port() != p {
 				continue
 			}
 			overlap := k.local.Addr().IsUnspecified() || ip.IsUnspecified() || k.local.Addr() == ip
@@ -451,6 +453,10 @@ func (s *Sim) complete(r *req, alt int) {
 		s.doWrite(r)
 	case rRead:
 		s.doRead(r, alt)
+	case rDup:
+		r.sock.dups = append(r.sock.dups, r.n)
+		s.logG(r.g, Ev{Kind: "dup", Sock: r.sock.ID})
+		s.reply(r, resp{})
 	case rSetBuf:
 		k := r.sock
 		if k.closed {
@@ -562,6 +568,38 @@ func (s *Sim) closeSocket(k *Socket) {
 	}
 	k.closed = true
 	k.closedAt = s.now
+}
+
+// dupHeld: a descriptor the library duplicated from the socket (File) is still open - the kernel keeps the socket,
+// and its port, until the last descriptor is closed. The library's end is a real descriptor of a socket pair: once
+// it is closed our end reads end-of-file.
+func (s *Sim) dupHeld(k *Socket) bool {
+	held := false
+	for i, fd := range k.dups {
+		if fd < 0 {
+			continue
+		}
+		var b [1]byte
+		n, _, err := syscall.Recvfrom(fd, b[:], syscall.MSG_DONTWAIT|syscall.MSG_PEEK)
+		if n == 0 && err == nil {
+			syscall.Close(fd)
+			k.dups[i] = -1
+			continue
+		}
+		held = true
+	}
+	return held
+}
+
+func (s *Sim) releaseDups() {
+	for _, k := range s.socks {
+		for i, fd := range k.dups {
+			if fd >= 0 {
+				syscall.Close(fd)
+				k.dups[i] = -1
+			}
+		}
+	}
 }
 
 func (s *Sim) doClose(r *req) {
